@@ -7,4 +7,7 @@ T6 == -2..3
 S4 == {1, 2, 3, 4}
 G4 == <<"A", "B", "A", "K">>   \* slot 4: a plain counter callable (not a function of time)
 I4 == <<1, 1, 2, 2>>
+S5 == {1, 2, 3, 4, 5}
+G5 == <<"A", "B", "A", "K", "C">>   \* slot 5: the default generator of a class attribute, used through the class
+I5 == <<1, 1, 2, 2, 0>>
 ====
